@@ -10,7 +10,8 @@ partial def readItem : Sexp → Option Item
   | .list [.atom "t", .atom n] => n.toNat?.map .task
   -- `(u n)`: the loading resource `n` is read under the ambient boundary: one guard, released when the
   -- resource delivers = a task with one await point (completed by the event `rN`, see `usesOf`)
-  | .list [.atom "u", .atom _] => some (.task 1)
+  | .list [.atom "u", .atom n] => n.toNat?.map .use
+  | .list [.atom "R", .atom n] => n.toNat?.map .resource
   | _ => none
 
 /-- the resource read by every task-like item, in creation order (`none` for ordinary tasks) -/
@@ -19,6 +20,7 @@ partial def usesOf : Sexp → List (Option Nat)
   | .list (.atom "b" :: cs) => cs.flatMap usesOf
   | .list [.atom "t", .atom _] => [none]
   | .list [.atom "u", .atom n] => [n.toNat?]
+  | .list [.atom "R", .atom n] => [n.toNat?]      -- the fetch itself completes with the same event
   | _ => []
 
 def showM (m : M) (from_ : Nat) (uses : List (Option Nat) := []) : String :=
